@@ -1064,7 +1064,7 @@ int main(int argc, char **argv)
         close(efd);
       }
       /* private /etc and hostname for this child, when permitted */
-      if (unshare(CLONE_NEWNS | CLONE_NEWUTS) == 0) {
+      if (getenv("VERIF_CFG_NO_NS") == NULL && unshare(CLONE_NEWNS | CLONE_NEWUTS) == 0) {
         uts_private = true;
         if (mount(NULL, "/", NULL, MS_REC | MS_PRIVATE, NULL) == 0 &&
             mount(ETC.c_str(), "/etc", NULL, MS_BIND, NULL) == 0)
